@@ -277,3 +277,84 @@ Proof.
         -- destruct (D1 X) as (? & ? & ?); auto.
         -- destruct (D X); split; [congruence|auto].
 Qed.
+
+(* ---------- part 3: a datagram ---------- *)
+
+Lemma keyless_single_hello d ms :
+  (negb (h_count (d_hdr d) =? 1) || negb (is_hello (h_type (d_hdr d)))) = false ->
+  open_dgram None d = Ok ms -> no_chal ms.
+Proof.
+  unfold open_dgram. intros G H.
+  apply Bool.orb_false_iff in G as [G1 G2].
+  apply Bool.negb_false_iff in G1, G2.
+  destruct (d_body d); cbn in H; try discriminate.
+  destruct (h_len (d_hdr d) =? len p); cbn in H; [|discriminate].
+  unfold decode_msgs in H. rewrite G1 in H.
+  destruct (_ <? _)%nat; inversion H; subst.
+  constructor; [|constructor]. cbn.
+  unfold is_hello, ptype_eqb in G2. destruct (h_type (d_hdr d)); cbn in G2; discriminate.
+Qed.
+
+Lemma header_eqb_eq a b : header_eqb a b = true -> a = b.
+Proof.
+  unfold header_eqb, ptype_eqb. intros H.
+  repeat (apply Bool.andb_true_iff in H as [H ?]).
+  destruct a, b; cbn in *.
+  apply Bool.eqb_prop in H.
+  assert (h_type = h_type0) by (destruct h_type, h_type0; cbn in *; try reflexivity; lia).
+  f_equal; auto; lia.
+Qed.
+
+Lemma open_keyed_authentic k d ms : open_dgram (Some k) d = Ok ms -> authentic k d.
+Proof.
+  unfold open_dgram, authentic. intros H.
+  destruct (d_body d) as [k' sh p| |]; cbn in H; try discriminate.
+  destruct ((k =? k') && header_eqb sh (d_hdr d) && (h_len (d_hdr d) =? len p)) eqn:E; cbn in H; [|discriminate].
+  apply Bool.andb_true_iff in E as [E E3]. apply Bool.andb_true_iff in E as [E1 E2].
+  apply header_eqb_eq in E2. exists p. split; [|lia]. f_equal; auto; lia.
+Qed.
+
+Lemma drop_inv c : inv c -> inv (c <| c_dropped := c_dropped c + 1 |>).
+Proof. auto. Qed.
+
+Theorem recv_facts c now d orcs c' o : recv c now d orcs = (c', o) ->
+  c_server c' = c_server c /\
+  (c_key c <> None -> c_key c' <> None) /\
+  (inv c -> inv c') /\
+  (existsb is_connect o = true ->
+     c_server c = true /\ c_key c' <> None /\
+     exists k ms, c_key c = Some k /\ authentic k d /\ open_dgram (Some k) d = Ok ms /\
+                  Exists (fun m => w_type m = CHALLENGE_RESP) ms).
+Proof.
+  unfold recv. intros H.
+  assert (Drop : (c <| c_dropped := c_dropped c + 1 |>, [ORet false]) = (c', o) ->
+    c_server c' = c_server c /\ (c_key c <> None -> c_key c' <> None) /\ (inv c -> inv c') /\
+    (existsb is_connect o = true -> c_server c = true /\ c_key c' <> None /\
+       exists k ms, c_key c = Some k /\ authentic k d /\ open_dgram (Some k) d = Ok ms /\
+                    Exists (fun m => w_type m = CHALLENGE_RESP) ms)).
+  { intros X; inversion X; subst. (split; [|split; [|split]]); auto. cbn; discriminate. }
+  destruct (keyless_refuses c (d_hdr d)) eqn:KR; [auto|].
+  destruct (open_dgram (c_key c) d) as [ms|] eqn:OD; [|auto].
+  destruct (bf_insert (c_bf_pkt c) (h_seq (d_hdr d))) as [bf|]; [|auto].
+  set (c0 := c <| c_bf_pkt := bf |> <| c_received := c_received c + 1 |> <| c_last_recv := now |>) in *.
+  destruct (handle_ack_bits_same c0 (d_hdr d)) as [[(K1 & S1 & T1) St1] [Q1 _]].
+  destruct (handle_ack_bits c0 (d_hdr d)) as [c1 o1]. cbn in K1, S1, T1, St1, Q1.
+  destruct (recv_msgs c1 now ms orcs) as [c2 o2] eqn:R. inversion H; subst.
+  destruct (recv_msgs_facts _ _ _ _ _ _ R) as (A & B & C & D).
+  assert (KN : c_key c1 <> None \/ no_chal ms).
+  { destruct (c_key c) eqn:Kc; [left; congruence|right].
+    unfold keyless_refuses in KR. rewrite Kc in KR. cbn in KR.
+    eapply keyless_single_hello; eauto. }
+  (split; [|split; [|split]]).
+  - congruence.
+  - intros X. apply B. congruence.
+  - intros I. apply C; auto. intros X. rewrite K1. apply I. congruence.
+  - rewrite !existsb_app, Q1. cbn. intros X.
+    assert (X2 : existsb is_connect o2 = true).
+    { destruct (existsb is_connect o2); auto. destruct (raised o2); cbn in X; discriminate. }
+    destruct (D X2) as [Sv Ex]. split; [congruence|].
+    destruct (c_key c) as [k|] eqn:Kc.
+    + split; [apply B; congruence|]. exists k, ms. repeat split; auto. eapply open_keyed_authentic; eauto.
+    + exfalso. destruct KN as [KN|KN]; [congruence|].
+      apply Exists_exists in Ex as (m & In_m & Ty). unfold no_chal in KN. rewrite Forall_forall in KN. exact (KN m In_m Ty).
+Qed.
